@@ -113,7 +113,7 @@ func roundTrip(r simbox.Rule, ignoreInapplicable bool) (class, detail string) {
 		case got.Timec != want.Timec:
 			f = "timec"
 		}
-		return "reparsed-differs:" + f, fmt.Sprintf("String()=%q, Add gives %+v, expected %+v", s, got, want)
+		return "reparsed-differs:" + f, fmt.Sprintf("String()=%q, Add of that gives %s, expected %s", s, fr(got), fr(want))
 	}
 	return "", ""
 }
@@ -207,7 +207,7 @@ func runPrintParse(run *vlib.Run) ppResult {
 				continue
 			}
 			if len(sb.Rules) != 1 || sb.Rules[0] != want {
-				run.Report("C15|parse|wrong-fields|"+cls, fmt.Sprintf("Add(%q) gives %+v, documented meaning %+v", s, sb.Rules, want), rp)
+				run.Report("C15|parse|wrong-fields|"+cls, fmt.Sprintf("Add(%q) gives %s, documented meaning %s", s, frs(sb.Rules), fr(want)), rp)
 				continue
 			}
 			res.classes["accepted:"+cls]++
@@ -221,7 +221,7 @@ func runPrintParse(run *vlib.Run) ppResult {
 				res.classes["rejected"]++
 				continue
 			}
-			run.Report("C15|parse|undocumented-form-accepted", fmt.Sprintf("Add(%q) accepted as %+v", s, sb.Rules), rp)
+			run.Report("C15|parse|undocumented-form-accepted", fmt.Sprintf("Add(%q) accepted as %s", s, frs(sb.Rules)), rp)
 			continue
 		}
 		if c, d := roundTrip(sb.Rules[0], false); c != "" {
@@ -255,14 +255,14 @@ func runPrintParse(run *vlib.Run) ppResult {
 		rp := ppReplay{Kind: "struct", Rule: &r}
 		switch {
 		case valid && c != "":
-			run.Report("C15|print|"+c+"|"+cls, fmt.Sprintf("%+v: %s", r, d), rp)
+			run.Report("C15|print|"+c+"|"+cls, fmt.Sprintf("%s: %s", fr(r), d), rp)
 		case !valid && c == "":
-			run.Report("C15|print|invalid-rule-printed-as-valid|"+cls, fmt.Sprintf("%+v prints as %q which parses back to the same rule although the documentation has no such form", r, r.String()), rp)
+			run.Report("C15|print|invalid-rule-printed-as-valid|"+cls, fmt.Sprintf("%s prints as %q which parses back to the same rule although the documentation has no such form", fr(r), r.String()), rp)
 		case !valid && (c == "printed-empty" || c == "printed-form-rejected"):
 			res.classes["unprintable:"+cls]++
 		case !valid:
 			// an undocumented combination that prints to something that parses to ANOTHER rule
-			run.Report("C15|print|invalid-rule-"+c+"|"+cls, fmt.Sprintf("%+v: %s", r, d), rp)
+			run.Report("C15|print|invalid-rule-"+c+"|"+cls, fmt.Sprintf("%s: %s", fr(r), d), rp)
 		default:
 			res.classes["roundtrip:"+cls]++
 			if c2, _ := roundTrip(r, false); c2 != "" {
@@ -311,7 +311,7 @@ func jsonRoundTrip(sb *simbox.Simbox) string {
 	}
 	for i := range sb.Rules {
 		if !reflect.DeepEqual(sb.Rules[i], back.Rules[i]) {
-			return fmt.Sprintf("rule %d saved as %+v, loaded as %+v", i, sb.Rules[i], back.Rules[i])
+			return fmt.Sprintf("rule %d saved as %s, loaded as %s", i, fr(sb.Rules[i]), fr(back.Rules[i]))
 		}
 	}
 	if back.Print() != sb.Print() {
@@ -366,3 +366,16 @@ var docExamples = []string{
 var _ = strconv.Itoa
 
 func newSimbox() *simbox.Simbox { return new(simbox.Simbox) }
+
+// fr prints the fields of a rule (Rule has a String method, %+v would print the rule text)
+func fr(r simbox.Rule) string {
+	return fmt.Sprintf("{Timec:%d Tick:%d Action:%d Object:%q Extra:%q Suspended:%v}", r.Timec, r.Tick, r.Action, r.Object, r.Extra, r.Suspended)
+}
+
+func frs(l []simbox.Rule) string {
+	var p []string
+	for _, r := range l {
+		p = append(p, fr(r))
+	}
+	return "[" + strings.Join(p, " ") + "]"
+}
